@@ -55,6 +55,13 @@ func peerAddr(k int) peerMap {
 			var a simwire.Address
 			copy(a[:], kernel.NewRand(kernel.Derive(0x9ee7, i)).Bytes(len(a)))
 			poolAddr[i] = peerMap{channel.TestBackendID: &a}
+			// every other identity is reachable under several backends (one
+			// wire address per backend id)
+			for b := 1; i%2 == 1 && b <= 1+i/2; b++ {
+				var x simwire.Address
+				copy(x[:], kernel.NewRand(kernel.Derive(0x9ee7, i, b)).Bytes(len(x)))
+				poolAddr[i][wallet.BackendID(b)] = &x
+			}
 			poolKey[i] = peerKey(poolAddr[i])
 		}
 	})
